@@ -1086,17 +1086,27 @@ def _update_sequence_obs(outs, n, uc, mgr, loaded, si, di, W):
 
 
 def _task_update_cache(ctx, repo, m, W):
-    # NeighborCache.update: every entry invalidated
+    _task_update_cache_threads(ctx, repo, m, W, 2)
+    _task_update_cache_threads(ctx, repo, m, W, 3)
+
+
+def _task_update_cache_threads(ctx, repo, m, W, nthreads_now):
+    # NeighborCache.update: every entry invalidated, and one buffer per
+    # CURRENT thread (the buffers are indexed by threadid(): a thread count
+    # raised after the cache was built must not run past them).  The cache
+    # was built with 2 threads; the count is now `nthreads_now`.
     fn = m.methods('NeighborCache')['update']
     npart = z3.Int('np')
     cached = C17.carr('_cached')
     ss = C17.carr('_start_stop')
     p2t = C17.carr('_pid_to_tid')
-    nbr = [SymObject(None, dict(
-        c_reset=Native(lambda e, s_, a, k, nd, i=i: s_.trace.append(
-            ('reset', i))),
-        c_reserve=Native(lambda e, s_, a, k, nd: None)), 'nbr%d' % i)
-        for i in range(2)]
+    def mk_nbr(i):
+        return SymObject(None, dict(
+            c_reset=Native(lambda e, s_, a, k, nd, i=i: s_.trace.append(
+                ('reset', i))),
+            c_reserve=Native(lambda e, s_, a, k, nd: None)), 'nbr%s' % i)
+    nbr = [mk_nbr(i) for i in range(2)]
+    fresh = []
     obj = SymObject('NeighborCache', dict(
         _n_threads=2, _dst_index=0, _particles=[SymObject(None, dict(
             get_number_of_particles=Native(lambda e, s_, a, k, nd: npart)),
@@ -1111,10 +1121,27 @@ def _task_update_cache(ctx, repo, m, W):
         return z3.And(i >= 0, z3.ForAll([k], z3.Implies(
             z3.And(0 <= k, k < i), z3.Select(arr, k) == 0)))
     spec = LoopSpec(inv=[('zeroed', cinv)])
+    lps = C17.loops_in(fn)
+    # the loop that zeroes the cached flags is the one over range(np)
+    kz = [i_ for i_, l_ in enumerate(lps) if isinstance(l_, ast.For) and
+          isinstance(l_.iter, ast.Call) and l_.iter.args and
+          isinstance(l_.iter.args[-1], ast.Name) and
+          l_.iter.args[-1].id == 'np'][0]
     ex = Executor(repo, m, qualname='NeighborCache.update', merge=False,
-                  loop_specs={('update', 0): spec}, contracts={
+                  loop_specs={('update', kz): spec}, contracts={
                       'NeighborCache._update_last_avg_nbr_size':
                       CalleeContract(lambda e, s_, a, k, nd: None)})
+    ex.spec_env['get_number_of_threads'] = Native(
+        lambda e, s_, a, k, nd: nthreads_now)
+    ex.spec_env['aligned_free'] = Native(
+        lambda e, s_, a, k, nd: s_.trace.append(('free', a[0])))
+    ex.spec_env['aligned_malloc'] = Native(
+        lambda e, s_, a, k, nd: [None] * nthreads_now)
+    ex.spec_env['sizeof'] = Native(lambda e, s_, a, k, nd: 8)
+    ex.spec_env['sizeof_type'] = 8      # sizeof(void*), as extracted
+    ex.spec_env['UIntArray'] = Native(
+        lambda e, s_, a, k, nd: (fresh.append(mk_nbr('new%d' % len(fresh))),
+                                 fresh[-1])[1])
     outs = ex.exec_function(fn, dict(self=obj), State(pc=[npart >= 0]))
     ctx.function(m, fn, 'NeighborCache.update', ex.dropped)
     obs = [o for o in ex.obligations if o.kind in ('inv-entry', 'inv-step',
@@ -1130,11 +1157,23 @@ def _task_update_cache(ctx, repo, m, W):
             z3.ForAll([k], z3.Implies(z3.And(0 <= k, k < npart), z3.Select(
                 arr.arr, k) == 0)),
             z3.BoolVal([t for t in o.state.trace if t[0] == 'reset'] ==
-                       [('reset', 0), ('reset', 1)])), W))
-    obs += C17.range_obs(ex, fn, 0, spec.logs[-1]['entry'], npart,
+                       ([('reset', 0), ('reset', 1)] if nthreads_now == 2
+                        else [('reset', 'new%d' % i)
+                              for i in range(nthreads_now)])),
+            # one buffer per current thread, each an array of its own
+            z3.BoolVal(me.attrs.get('_n_threads') == nthreads_now and
+                       len(me.attrs['_neighbors']) == nthreads_now and
+                       len(set(id(x) for x in me.attrs['_neighbors'])) ==
+                       nthreads_now and
+                       all(x is not None for x in me.attrs['_neighbors']))),
+            W))
+    obs += C17.range_obs(ex, fn, kz, spec.logs[-1]['entry'], npart,
                          'cache_update.range', W)
-    ctx.prove('cache.update_invalidates_every_entry', z3only(obs),
-              use_nf=False)
+    for o_ in obs:
+        o_.name = 'threads%d.%s' % (nthreads_now, o_.name)
+    ctx.prove('cache.update_invalidates_every_entry' + (
+        '' if nthreads_now == 2 else '.thread_count_changed'), z3only(obs),
+        use_nf=False)
 
 
 CACHE_THREADS = r'''
